@@ -332,10 +332,7 @@ func mkAdv(a advSpec) *detector.Advisory {
 	if a.kind == 'n' {
 		return nil
 	}
-	adv := &detector.Advisory{Type: detector.TypeVulnerability, Title: fmt.Sprintf("t%d", a.body/3), Description: "d", Recommendation: "r"}
-	if a.body%3 != 0 {
-		adv.Sev = &detector.Severity{Severity: detector.SeverityEnum(a.body % 3)}
-	}
+	adv := advWithBody(a.body) // fresh objects at every level; body k = the base advisory with its k-th field different
 	if a.kind == 'f' {
 		adv.ID = &detector.AdvisoryID{Publisher: fmt.Sprintf("P%d", a.pub), Reference: a.ref}
 	}
@@ -482,12 +479,7 @@ func advOut(a *detector.Advisory) string {
 	if a == nil {
 		return "n"
 	}
-	body := 0
-	fmt.Sscanf(a.Title, "t%d", &body)
-	body *= 3
-	if a.Sev != nil {
-		body += int(a.Sev.Severity)
-	}
+	body := advBodyOf(a) // from the canonical rendering of the whole value
 	if a.ID == nil {
 		return "i" + strconv.Itoa(body)
 	}
@@ -680,19 +672,19 @@ func (g *fgen) adv(badPct int) advSpec {
 	case k < badPct/2:
 		return advSpec{kind: 'n'}
 	case k < badPct:
-		return advSpec{kind: 'i', body: g.r.Intn(4)}
+		return advSpec{kind: 'i', body: g.r.Intn(len(advMuts) + 1)}
 	}
 	ri := g.refs[g.r.Intn(len(g.refs))]
 	ref := refPool[ri]
-	body := ri % 4 // by default the body is determined by the reference: consistent
+	body := ri % (len(advMuts) + 1) // by default the body is determined by the reference: consistent
 	if g.r.Intn(100) < badPct {
-		body = g.r.Intn(4)
+		body = g.r.Intn(len(advMuts) + 1) // a single-field difference somewhere in the advisory (or none)
 	}
 	pub := 0
 	if g.r.Intn(12) == 0 {
 		pub = 1
 	}
-	return advSpec{kind: 'f', pub: pub, ref: ref, body: body + 4*pub}
+	return advSpec{kind: 'f', pub: pub, ref: ref, body: body}
 }
 
 // findings: detector findings may repeat an earlier finding object (aliasPct) — of the same detector, of another
@@ -1149,6 +1141,24 @@ func randPhases(r *rand.Rand) phCase {
 	return c
 }
 
+// advFieldCases (both tiers): for every field of detector.Advisory and its nested structs (and every nil-vs-set pointer)
+// two findings with the SAME advisory ID whose advisories are distinct objects identical except in that one field — in
+// both orders, across two detectors and inside one — must fail the scan; the all-equal controls (distinct objects, same
+// content, for the base and for every variant) must not.
+func advFieldCases(emit func(tcase)) {
+	mk := func(ptr, body int) fndSpec {
+		return fndSpec{false, ptr, advSpec{kind: 'f', ref: "CVE-7", body: body}, ""}
+	}
+	for k := 0; k <= len(advMuts); k++ {
+		for _, pair := range [][2]int{{0, k}, {k, 0}, {k, k}} {
+			emit(tcase{nfx: 0, roots: [][]fileSpec{nil}, dets: []detSpec{{mode: 'c', findings: []fndSpec{mk(1, pair[0])}}, {mode: 'c', findings: []fndSpec{mk(2, pair[1])}}}})
+			emit(tcase{nfx: 0, roots: [][]fileSpec{nil}, dets: []detSpec{{mode: 'c', findings: []fndSpec{mk(1, pair[0]), mk(2, pair[1])}}}})
+		}
+		// an extractor's finding against a detector's
+		emit(tcase{nfx: 1, roots: [][]fileSpec{{{exts: []int{0}, findings: []fndSpec{mk(1, 0)}}}}, dets: []detSpec{{mode: 'c', findings: []fndSpec{mk(2, k)}}}})
+	}
+}
+
 // runLine dispatches on the op; a line of another check's grammar (the corpus of the property that borrows this stream) is "bad-op"
 func runLine(l string) (reply string) {
 	defer func() {
@@ -1157,6 +1167,8 @@ func runLine(l string) (reply string) {
 		}
 	}()
 	switch {
+	case l == "advfields":
+		return fmt.Sprintf("n=%d fields=%s", len(advMuts), hx.Hex(strings.Join(advFieldNames(), ",")))
 	case strings.HasPrefix(l, "scan "):
 		c := parseCase(l)
 		return run(c)
@@ -1173,6 +1185,7 @@ func main() {
 	o := hx.Parse()
 	out := hx.NewOut()
 	defer out.Flush()
+	initAdvisories()
 	if o.Replay != "" {
 		for _, l := range hx.ReplayLines(o.Replay) {
 			out.Emit(l, runLine(l))
@@ -1195,6 +1208,10 @@ func main() {
 	emitPh := func(c phCase) {
 		l := c.line()
 		out.Emit(l, runPhases(parsePhases(l)))
+	}
+	if want("scan") {
+		out.Emit("advfields", runLine("advfields")) // the enumerated field list, for the evidence
+		advFieldCases(emitScan)
 	}
 	if want("order") {
 		orderCases(emitScan)
